@@ -20,6 +20,9 @@ type GenOpts struct {
 	FlatTemplateData   bool
 	DupNames           bool     // reuse the same interface names in every package
 	Layout             []string // when set, use exactly these package directories
+	// ManyFiles: the first package is spread over nine source files with one interface each
+	// (anything that treats the files of a package concurrently or in directory order shows there)
+	ManyFiles bool
 }
 
 var ifaceNames = []string{"Store", "Reader", "Fetcher", "Renderer", "Closer", "Sorter", "Codec", "Waiter", "Getter", "Putter", "Walker", "Mixer"}
@@ -97,6 +100,9 @@ func GenPackages(r *core.Rng, o GenOpts) []Pkg {
 		nFiles := 1
 		if nIf > 1 && r.Bool() {
 			nFiles = 2
+		}
+		if o.ManyFiles && pi == 0 {
+			nIf, nFiles = 9, 9
 		}
 		files := make([]SrcFile, nFiles)
 		for fi := range files {
